@@ -46,11 +46,32 @@ def generate(report, module, families, consts, with_grad=True, timeout=3000, par
     return cases
 
 
+def flag_table(report):
+    """Tape.tla's rule `ResultRG` (result requires grad iff grad mode is on and some operand requires grad), evaluated
+    by TLC into a table for 1..3 operands: {(gm, (rg...)): out}"""
+    got = []
+    w = ("MC", "---- MODULE MC ----\nEXTENDS Tape, Json\n"
+               "MCNext == UNCHANGED tvars0\n"
+               "EmitFlags == PrintT(ToJson([flagtable |-> FlagTable(1) \\cup FlagTable(2) \\cup FlagTable(3)]))\n====\n")
+    res = tlc.run_tlc("Tape", "INIT TapeInit\nNEXT MCNext\nINVARIANT EmitFlags\nCHECK_DEADLOCK FALSE\n", workers=1, wrapper=w, on_case=got.append, tag="flagtable")
+    tlc.require_clean(res, "flagtable")
+    report.tlc(res, "Tape.FlagTable (requires-grad rule for 1..3 operands)")
+    table = {}
+    for o in got:
+        for e in o["flagtable"]:
+            table[(bool(e["gm"]), tuple(bool(b) for b in e["rg"]))] = bool(e["out"])
+    if len(table) != 2 * (2 + 4 + 8):
+        raise core.Machinery("flag table incomplete: %d entries" % len(table))
+    return table
+
+
 def _worker(args):
     lo, hi = args
     sg = repo.load(_G["repo"])
     mod = __import__("harness." + _G["replayer"][0], fromlist=["x"])
     rp = getattr(mod, _G["replayer"][1])(sg)
+    for k, v in (_G.get("rattrs") or {}).items():
+        setattr(rp, k, v)
     out = []
     for idx in range(lo, hi):
         case = _G["cases"][idx]
@@ -60,9 +81,9 @@ def _worker(args):
 
 
 def replay(ctx, report, cases, kinds, dtypes=(np.float32, np.float64), cross_g=False, procs=16,
-           replayer=("replay_catalog", "CatalogReplayer"), spec="OpCatalog"):
+           replayer=("replay_catalog", "CatalogReplayer"), spec="OpCatalog", rattrs=None):
     import multiprocessing as mp
-    _G.update(repo=ctx.repo, cases=cases, dtypes=dtypes, cross_g=cross_g, replayer=replayer)
+    _G.update(repo=ctx.repo, cases=cases, dtypes=dtypes, cross_g=cross_g, replayer=replayer, rattrs=rattrs)
     total = len(cases)
     chunk = max(1, min(200, (total + procs * 4 - 1) // (procs * 4)))
     jobs = [(lo, min(total, lo + chunk)) for lo in range(0, total, chunk)]
@@ -83,8 +104,17 @@ def replay(ctx, report, cases, kinds, dtypes=(np.float32, np.float64), cross_g=F
             for kind, key, msg in divs:
                 if kind in kinds:
                     report.violation(key, msg, {"spec": spec, "case": {k: v for k, v in case.items() if not k.startswith("_")},
-                                                "divergence": [kind, key, msg]})
+                                                "divergence": [kind, key, msg], "rattrs": _jsonable_attrs(rattrs)})
     return total
+
+
+def _jsonable_attrs(rattrs):
+    if not rattrs:
+        return None
+    out = dict(rattrs)
+    if "flagtable" in out:
+        out["flagtable"] = [[k[0], list(k[1]), v] for k, v in out["flagtable"].items()]
+    return out
 
 
 def replay_file(ctx, path, kinds, replayer=("replay_catalog", "CatalogReplayer")):
@@ -92,6 +122,10 @@ def replay_file(ctx, path, kinds, replayer=("replay_catalog", "CatalogReplayer")
     sg = repo.load(ctx.repo)
     mod = __import__("harness." + replayer[0], fromlist=["x"])
     r = getattr(mod, replayer[1])(sg)
+    for k, v in (rp.get("rattrs") or {}).items():
+        if k == "flagtable":
+            v = {(e[0], tuple(e[1])): e[2] for e in v}
+        setattr(r, k, v)
     divs = [d for d in r.run(rp["case"], cross_g=True) if d[0] in kinds]
     for d in divs:
         print("DIVERGENCE", d)
